@@ -127,6 +127,106 @@ theorem requiredOK_iff (s : RS) (kvs : List (Str × V)) :
   unfold requiredOK
   simp [List.all_eq_true]
 
+/-! ### writeOnly plays no role -/
+
+theorem lookup_clearWOProps (k : Str) (props : List (Str × RS)) :
+    lookup k (clearWOProps props) = (lookup k props).map RS.clearWO := by
+  induction props with
+  | nil => simp [clearWOProps, lookup]
+  | cons x r ih =>
+    obtain ⟨k', p⟩ := x
+    unfold clearWOProps lookup
+    by_cases hk : k = k' <;> simp [hk, ih]
+
+theorem keys_clearWOProps (props : List (Str × RS)) : keys (clearWOProps props) = keys props := by
+  induction props with
+  | nil => simp [clearWOProps, keys]
+  | cons x r ih =>
+    obtain ⟨k', p⟩ := x
+    unfold clearWOProps
+    simp only [keys, List.map_cons] at ih ⊢
+    rw [ih]
+
+theorem clearWO_ro (s : RS) : s.clearWO.ro = s.ro := by cases s; simp [RS.clearWO, RS.ro]
+
+theorem isRO_clearWO (k : Str) (props : List (Str × RS)) :
+    isRO (lookup k (clearWOProps props)) = isRO (lookup k props) := by
+  rw [lookup_clearWOProps]
+  cases lookup k props with
+  | none => rfl
+  | some p => simp [isRO, clearWO_ro]
+
+/-- all constraints absent (the `writeOnly` flag aside): the general path accepts every non-null value -/
+structure NoConstraint (s : RS) : Prop where
+  ty : s.ty = none
+  minLen : s.minLen = 0
+  max : s.max = none
+  required : s.required = []
+  addl : s.addl ≠ some false
+  props : s.props = []
+  items : s.items = none
+
+theorem visitFields_noConstraint (exro : Bool) (s : RS) (e : NoConstraint s) (kvs : List (Str × V)) :
+    visitFields exro s kvs = true := by
+  induction kvs with
+  | nil => simp [visitFields]
+  | cons x r ih =>
+    obtain ⟨k, v⟩ := x
+    rw [visitFields, ih]
+    simp only [e.props, lookup, Bool.and_true, bne_iff_ne, ne_eq]
+    exact e.addl
+
+theorem visit_noConstraint (exro : Bool) (s : RS) (e : NoConstraint s) (v : V) (hv : v.isNull = false) :
+    visit exro s v = true := by
+  cases v with
+  | null => simp [V.isNull] at hv
+  | bool b => rw [visit]; simp [e.ty, permits]
+  | int n => rw [visit]; simp [e.ty, e.max, permits, numTypeOK, maxOK]
+  | half n => rw [visit]; simp [e.ty, e.max, permits, numTypeOK, maxOK]
+  | str t => rw [visit]; simp [e.ty, e.minLen, permits]
+  | arr xs => rw [visit]; simp [e.ty, e.items, permits]
+  | obj kvs =>
+    rw [visit]
+    simp [e.ty, e.props, e.required, permits, roLoopOK, keys, requiredOK, visitFields_noConstraint exro s e kvs]
+
+theorem noConstraint_of_emptyLeaf (s : RS) (h : isEmptyLeaf s = true) : NoConstraint s :=
+  let e := emptyLeaf_of s h
+  ⟨e.ty, e.minLen, e.max, e.required, e.addl, e.props, e.items⟩
+
+theorem clearWO_ty (s : RS) : s.clearWO.ty = s.ty := by cases s; rfl
+theorem clearWO_nullable (s : RS) : s.clearWO.nullable = s.nullable := by cases s; rfl
+theorem clearWO_minLen (s : RS) : s.clearWO.minLen = s.minLen := by cases s; rfl
+theorem clearWO_max (s : RS) : s.clearWO.max = s.max := by cases s; rfl
+theorem clearWO_required (s : RS) : s.clearWO.required = s.required := by cases s; rfl
+theorem clearWO_addl (s : RS) : s.clearWO.addl = s.addl := by cases s; rfl
+theorem clearWO_props (s : RS) : s.clearWO.props = clearWOProps s.props := by cases s; rfl
+theorem clearWO_items (s : RS) : s.clearWO.items = clearWOOpt s.items := by cases s; rfl
+theorem clearWO_wo (s : RS) : s.clearWO.wo = false := by cases s; rfl
+
+theorem clearWOProps_eq_nil (props : List (Str × RS)) : clearWOProps props = [] ↔ props = [] := by
+  cases props with
+  | nil => simp [clearWOProps]
+  | cons x r => obtain ⟨k, p⟩ := x; simp [clearWOProps]
+
+theorem clearWOOpt_eq_none (o : Option RS) : clearWOOpt o = none ↔ o = none := by
+  cases o <;> simp [clearWOOpt]
+
+theorem noConstraint_of_clearWO (s : RS) (e : NoConstraint s.clearWO) : NoConstraint s :=
+  ⟨by rw [← clearWO_ty]; exact e.ty, by rw [← clearWO_minLen]; exact e.minLen, by rw [← clearWO_max]; exact e.max,
+   by rw [← clearWO_required]; exact e.required, by rw [← clearWO_addl]; exact e.addl,
+   (clearWOProps_eq_nil _).mp (by rw [← clearWO_props]; exact e.props),
+   (clearWOOpt_eq_none _).mp (by rw [← clearWO_items]; exact e.items)⟩
+
+theorem isEmptyLeaf_clearWO_of (s : RS) (h : isEmptyLeaf s = true) : isEmptyLeaf s.clearWO = true := by
+  have e := emptyLeaf_of s h
+  unfold isEmptyLeaf at h ⊢
+  simp only [clearWO_ty, clearWO_nullable, clearWO_ro, clearWO_wo, clearWO_minLen, clearWO_max, clearWO_required,
+    clearWO_addl, clearWO_props, clearWO_items, e.props, e.items, clearWOProps, clearWOOpt]
+  simp only [e.props, e.items, Bool.and_eq_true] at h
+  simp only [Bool.and_eq_true]
+  obtain ⟨⟨⟨⟨⟨⟨⟨⟨⟨h1, h2⟩, h3⟩, _⟩, h5⟩, h6⟩, h7⟩, h8⟩, h9⟩, h10⟩ := h
+  exact ⟨⟨⟨⟨⟨⟨⟨⟨⟨h1, h2⟩, h3⟩, rfl⟩, h5⟩, h6⟩, h7⟩, h8⟩, h9⟩, h10⟩
+
 /-! ### urlencoded: model decoder vs the value the fields encode -/
 
 theorem encodesPrim_ne_null (t : Ty) (raw : Str) (v : V) (h : encodesPrim t raw = some v) : v.isNull = false := by
